@@ -605,8 +605,10 @@ pub fn run() {
                             println!("{}", l);
                         }
                     }
-                    Err(_) => {
+                    Err(e) => {
                         println!("ret=panic");
+                        // the panic message, for the monitors only (the comparison with the model ignores this line)
+                        println!("PANIC {}", crate::mc::panic_text(&e));
                         sc.dead = true;
                     }
                 }
